@@ -38,7 +38,12 @@ func (d *Driver) read() {
 
 		rb, err := d.Channel.Read()
 		if err != nil {
-			d.errs <- err
+			select {
+			case d.errs <- err:
+			case <-d.done:
+				// closing while no rpc is waiting to pick the error up
+				return
+			}
 		}
 
 		b = append(b, rb...)
